@@ -1,7 +1,28 @@
-(* C03 — A mint quote is issued at most once per payment, never before it is paid
-   Statements only; every proof is `exact <lemma>` into Mint/*.v (model: Mint/Model.v, semantics: Mint/Sem.v). *)
+(* C03 - A mint quote is issued at most once per payment, never before it is paid
+   Statements only; every proof is `exact <lemma>` into coq/Mint/*.v.
+
+   Reading guide (definitions in coq/Mint/*.v):
+     world            = store (tables spent/pending/signatures/mint quotes/melt quotes/keysets) + Lightning environment
+                        (invoices, scripted answers, log of pay calls) + the process memory (keysets, active keyset)
+     op               = one request (OSwap, OMint, OMelt, OMeltQuote, OMintQuote, OMintState, OMeltState, OCheck, ORestore,
+                        ORotate, ORestart, OWatcher, OBalance, OInfo) or environment step (ESettle, EScriptPay/Look, ...)
+     op_prog          = the request as a program over storage/Lightning calls, following mint/mint.go call by call
+     run p f w        = run program p from world w; f: which call positions get an injected storage error (no_fault: none)
+     run_n n p f w    = the same, but the process dies after n calls
+     step cfg f w o   = one request run to completion; run_history / reach: a sequential fault-free history from the empty store
+     hrun cfg w h     = a history of items: HNormal o | HFault o f | HCrash o n | HConc ops schedule (interleaving at call granularity)
+     WInv w           = every table has unique keys (Y, B_, quote ids, keyset ids)
+     Good w           = WInv w and no Y is both spent and pending
+     wext w w'        = spent and signature tables of w' extend those of w (nothing removed or altered)
+     same_but_calls   = nothing changed but the call counter
+     settled w h      = the backend reports the own invoice with payment hash h as settled
+
+   quote_issued_at_most_once_per_payment: ghost lists iss/cred of issuance and internal-credit events along the history (qtrace);
+   honest = the invoice subscription only reports invoices that are settled.  Concurrent MintTokens on one quote are NOT safe in the
+   code (known finding, c03-sched).
+*)
 From Coq Require Import ZArith List Bool.
-From Verif Require Import Model Sem InvDb InvSwap InvMint InvMelt Corollaries Queries Footprint Global GlobalQuote Cuts.
+From Verif Require Import Model Sem InvDb InvSwap InvMint InvMelt Corollaries Queries Footprint HRel Global GlobalQuote GlobalValue GlobalErr GlobalQuery GlobalMelt GlobalKeys Cuts.
 Import ListNotations.
 Open Scope Z_scope.
 
@@ -16,6 +37,15 @@ Theorem C03_quote_issued_at_most_once_per_payment : forall (cfg : config) (h : l
 Proof. exact @quote_issued_at_most_once_per_payment. Qed.
 Print Assumptions C03_quote_issued_at_most_once_per_payment.
 
+Theorem C03_step_qinv : forall (cfg : config) (w : world) (o : op) (iss cred : list Z),
+       Good w ->
+       watcher_honest w o ->
+       QInv w iss cred ->
+       QInv (fst (step cfg no_fault w o)) (issue_ev o (snd (step cfg no_fault w o)) ++ iss)
+         (credit_ev w o (snd (step cfg no_fault w o)) ++ cred).
+Proof. exact @step_qinv. Qed.
+Print Assumptions C03_step_qinv.
+
 Theorem C03_mint_needs_payment : forall (mem_ks : list ksrow) (active id : Z) (outs : list bmsg) (sig : Z) (w w' : world) (sigs : list srow),
        WInv w ->
        run (mint_tokens mem_ks active id outs sig) no_fault w = (w', Done (Ok sigs)) ->
@@ -29,7 +59,8 @@ Theorem C03_mint_within_quote : forall (mem_ks : list ksrow) (active id : Z) (ou
        WInv w ->
        run (mint_tokens mem_ks active id outs sig) no_fault w = (w', Done (Ok sigs)) ->
        Forall (fun x : Z => 0 <= x < two64) (map b_amount outs) ->
-       exists q : mquote, find_mq id (d_mq (w_db w)) = Some q /\ tsum (map s_amount sigs) <= mq_amount q \/ sigs = [].
+       exists q : mquote,
+         find_mq id (d_mq (w_db w)) = Some q /\ tsum (map s_amount sigs) <= mq_amount q \/ sigs = [].
 Proof. exact @mint_within_quote. Qed.
 Print Assumptions C03_mint_within_quote.
 
@@ -62,33 +93,7 @@ Theorem C03_watcher_only_unpaid : forall (id : Z) (w : world) (q : mquote),
 Proof. exact @watcher_only_unpaid. Qed.
 Print Assumptions C03_watcher_only_unpaid.
 
-Theorem C03_mint_tokens_spec : forall (mem_ks : list ksrow) (active id : Z) (outs : list bmsg) (sig : Z) (w : world),
-       WInv w ->
-       exists (w' : world) (r : result (list srow)),
-         run (mint_tokens mem_ks active id outs sig) no_fault w = (w', Done r) /\
-         match r with
-         | Ok sigs =>
-             exists q : mquote,
-               find_mq id (d_mq (w_db w)) = Some q /\
-               ((mq_state q = 1 \/ mq_state q = 0 /\ settled w (mq_hash q) = true) /\
-                (exists oa : Z, amount_checked (map b_amount outs) 0 = Some oa /\ oa <= mq_amount q) /\
-                NoDup (map b_B outs) /\
-                (forall o : bmsg, In o outs -> ~ In (b_B o) (map s_B (d_sigs (w_db w)))) /\
-                (mq_pubkey q <> 0 -> sig = 1) /\
-                check_outputs mem_ks active outs = None /\
-                sigs = sig_rows outs /\
-                d_sigs (w_db w') = d_sigs (w_db w) ++ sig_rows outs /\
-                d_mq (w_db w') = upd_mq id 3 (d_mq (w_db w)) /\
-                d_spent (w_db w') = d_spent (w_db w) /\
-                d_pending (w_db w') = d_pending (w_db w) /\ d_lq (w_db w') = d_lq (w_db w) /\ w_ln w' = w_ln w \/
-                ~ 0 <= mq_state q <= 3 /\ sigs = [] /\ same_but_calls w w')
-         | Err _ =>
-             same_but_calls w w' \/
-             (exists q : mquote,
-                find_mq id (d_mq (w_db w)) = Some q /\
-                (mq_state q = 1 \/ mq_state q = 0 /\ settled w (mq_hash q) = true) /\
-                only_mq w w' (upd_mq id 1 (d_mq (w_db w))))
-         end.
-Proof. exact @mint_tokens_spec. Qed.
-Print Assumptions C03_mint_tokens_spec.
+Theorem C03_quotes_never_altered : forall (cfg : config) (h : list hitem) (w : world), quotes_ext w (hrun cfg w h).
+Proof. exact @quotes_never_altered. Qed.
+Print Assumptions C03_quotes_never_altered.
 
